@@ -37,7 +37,8 @@ def run(ctx) -> None:
     rng = random.Random(ctx.seed * 6151 + 5)
     rule = ("S-D/discovery: random directory trees (depth<=3) with directories named test/tests/docs and look-alikes "
             "(testing, mytests, docs_old, test_utils, Tests, doc, attest), files test_x.py/tests.py/docs.py, with and "
-            "without __init__.py, roots that themselves lie under a tests directory; x flag on/off; mypy's build graph "
+            "without __init__.py (sparse: the nearest package may lie in any subtree), roots that themselves lie under a tests "
+            "directory; Path.glob yields a freshly shuffled order in every run; x flag on/off; mypy's build graph "
             "replaced by all .py files of the tree in random order; non-trivial = some file lies in an excluded "
             "directory and some file does not; distinct by tree")
     rep.rule = (rep.rule + " | " if rep.rule else "") + rule
@@ -56,7 +57,7 @@ def run(ctx) -> None:
             top = base / f"t{i}"
             under_tests = rng.random() < 0.08
             root = (top / "tests" / "data" / "proj") if under_tests else (top / rng.choice(["proj", "my_pkg", "docs_project"]))
-            make_tree(root, rng, 3, rng.choice([1.0, 0.8, 0.3]))
+            make_tree(root, rng, 3, rng.choice([1.0, 0.8, 0.3, 0.15]))
             all_py = sorted(p for p in root.rglob("*.py"))
             graph_paths = [str(p) for p in all_py] + [str(top / "elsewhere" / "typing.pyi")]
             rng.shuffle(graph_paths)
@@ -77,6 +78,15 @@ def run(ctx) -> None:
                     raise Stop
 
                 ga._get_mypy_build, ga._get_mypy_asts = fake_build, wrap
+                # the enumeration order of the file system is not part of the input: every run sees another one
+                real_glob = Path.glob
+                order_rng = random.Random(rng.randrange(1 << 30))
+
+                def shuffled_glob(self, pattern, *a, _g=real_glob, _r=order_rng, **k):
+                    xs = list(_g(self, pattern, *a, **k))
+                    _r.shuffle(xs)
+                    return iter(xs)
+                Path.glob = shuffled_glob
                 try:
                     ga.get_api(root.resolve(), is_test_run=flag)
                     out = ("noexc",)
@@ -87,6 +97,7 @@ def run(ctx) -> None:
                 except Exception as e:  # noqa: BLE001
                     out = ("exc", type(e).__name__)
                 finally:
+                    Path.glob = real_glob
                     ga._get_mypy_build, ga._get_mypy_asts = real_build, real_asts
                 rep.evaluations += 1
                 rroot = root.resolve()
